@@ -1,2 +1,147 @@
+import XcpModel.Pool
+import XcpModel.ParfilePool
 import XcpModel.Handle
-/-! placeholder until the pool invariants are proved -/
+import XcpProofs.PoolInv
+import XcpProofs.ParfileInv
+/-! # C18 — `--fsync` flushes every destination file after its last write
+
+"With fsync requested, for every copied regular file an fsync of the destination is issued after the last
+operation that writes its data and before xcp exits, under every interleaving of the block workers."
+
+Model slice, three layers:
+* `Xcp.Pool` (parblock driver): dispatcher + bounded job queue + pool threads, one `Arc` clone of the `CopyHandle`
+  per block job; the last clone dropped runs `Drop` = finalise, fsync, close.  A schedule is a label sequence;
+  the theorems hold for every label sequence, every queue capacity, every worker count, every file list.
+  The log records `opened / write / copied / finalise / fsync / closed` per handle (handle `h` = `h`-th file).
+* `Xcp.Parfile` (parfile driver): each worker owns the one handle it has open; `Drop` runs on the same thread
+  after the last data call.
+* `fileProgram` (`CopyHandle`, sequential): the calls made on one destination file.
+
+"Before xcp exits" = in a final state (nothing queued, nothing running): the drivers join every worker before
+`copy` returns, and the fsync event is already in the log of the final state.  That every schedule reaches a final
+state is `parblock_every_schedule_terminates` / `parfile_every_schedule_terminates`.
+Lemmas: `XcpProofs/PoolInv.lean`, `XcpProofs/ParfileInv.lean`. -/
+namespace Xcp.C18
+
+open Xcp Xcp.Pool
+
+/-! ## parblock -/
+
+/-- In every reachable state — any schedule, any capacity, any number of workers, any files — the log satisfies
+the monitor: no write of a handle occurs after its finalisation or after its fsync. -/
+theorem parblock_no_write_after_fsync (files : List Nat) (cap workers : Nat) (fs : Bool) (s : St)
+    (h : Reachable files cap workers fs s) : writesBeforeFinalise s.log = true :=
+  writes_before_finalise files cap workers fs s h
+
+/-- With fsync requested, when everything is done: for every file given, the log splits at an fsync of that
+file's handle, every block's write is before it and no write of the file is after it. -/
+theorem parblock_fsync_after_last_write (files : List Nat) (cap workers : Nat) (s : St)
+    (h : Reachable files cap workers true s) (hf : final s = true) (hd : Hid) (hb : hd < files.length) :
+    ∃ pre post, s.log = pre ++ .fsync hd :: post ∧
+      (∀ blk, blk < files[hd] → .write hd blk ∈ pre) ∧ (∀ blk, .write hd blk ∉ post) := by
+  obtain ⟨hn, hcl, hcnt⟩ := final_all_closed files cap workers true s h hf
+  have hok : ClosedOk s.log := fun x pre post hl => fsync_before_close files cap workers s h x pre post hl
+  obtain ⟨pre, post, heq, hpre, hpost⟩ :=
+    fsync_after_writes_of_closed s.log hd (writes_before_finalise files cap workers true s h) hok
+      (hcl hd (by rw [hn]; exact hb))
+  refine ⟨pre, post, heq, ?_, hpost⟩
+  intro blk hblk
+  apply hpre
+  have := hcnt hd hb blk hblk
+  exact List.count_pos_iff.mp (by omega)
+
+/-- Every schedule terminates — a run from the initial state has at most `measure init` steps — and cannot get
+stuck before the end: with at least one worker and one queue slot, a reachable state that is not final has an
+enabled label.  So every maximal schedule ends in a final state, where `parblock_fsync_after_last_write` applies. -/
+theorem parblock_every_schedule_terminates (files : List Nat) (cap workers : Nat) (fs : Bool) :
+    (∀ ls s, run (init files cap workers fs) ls = some s → ls.length ≤ measure (init files cap workers fs)) ∧
+    (∀ s, Reachable files cap workers fs s → 0 < workers → 0 < cap → final s = false → enabled s ≠ []) := by
+  constructor
+  · intro ls s hr
+    have := run_measure _ _ _ hr
+    omega
+  · intro s hr hw hc hf
+    obtain ⟨h1, h2, _⟩ := params_reachable hr
+    exact no_deadlock s (by omega) (by omega) hf
+
+/-- Without the option no fsync is ever issued. -/
+theorem without_option_no_fsync (files : List Nat) (cap workers : Nat) (s : St)
+    (h : Reachable files cap workers false s) (hd : Hid) : .fsync hd ∉ s.log :=
+  no_fsync_event files cap workers s h hd
+
+/-! ## parfile -/
+
+/-- The parfile workers, every schedule: no write of a handle after its finalisation or its fsync, and with fsync
+requested every `closed h` is immediately preceded by `finalise h, fsync h`. -/
+theorem parfile_fsync_after_last_write (files : List Nat) (n : Nat) (s : Parfile.St)
+    (h : Parfile.Reachable files n true s) :
+    writesBeforeFinalise s.log = true ∧
+    ∀ hd pre post, s.log = pre ++ .closed hd :: post → ∃ pre', pre = pre' ++ [.finalise hd, .fsync hd] :=
+  ⟨Parfile.writes_before_finalise files n true s h, fun hd pre post hl => Parfile.fsync_before_close files n s h hd pre post hl⟩
+
+/-- … and when everything is done, for every file given the log splits at an fsync of its handle with every
+write of that file before it and none after. -/
+theorem parfile_every_file_fsynced (files : List Nat) (n : Nat) (s : Parfile.St)
+    (h : Parfile.Reachable files n true s) (hf : Parfile.final s = true) (hd : Hid) (hb : hd < files.length) :
+    ∃ pre post, s.log = pre ++ .fsync hd :: post ∧
+      (∀ blk, .write hd blk ∈ s.log → .write hd blk ∈ pre) ∧ (∀ blk, .write hd blk ∉ post) :=
+  fsync_after_writes_of_closed s.log hd (Parfile.writes_before_finalise files n true s h)
+    (fun x pre post hl => Parfile.fsync_before_close files n s h x pre post hl)
+    ((Parfile.final_all_closed files n true s h hf).2 hd hb)
+
+/-- Every parfile schedule terminates and, with at least one worker, cannot get stuck before the end. -/
+theorem parfile_every_schedule_terminates (files : List Nat) (n : Nat) (fs : Bool) :
+    (∀ ls s, Parfile.run (Parfile.init files n fs) ls = some s →
+      ls.length ≤ Parfile.measure (Parfile.init files n fs)) ∧
+    (∀ s, Parfile.Reachable files n fs s → 0 < n → Parfile.final s = false → Parfile.enabled s ≠ []) := by
+  constructor
+  · intro ls s hr
+    have := Parfile.run_measure _ _ _ hr
+    omega
+  · intro s hr hn hf
+    have := (Parfile.params_reachable hr).1
+    exact Parfile.no_deadlock s (by omega) hf
+
+/-! ## one file, sequentially -/
+
+/-- The calls made on one destination file with fsync requested: the last one is the fsync, and no data call
+follows a finalisation call (whatever the clone answer, also when the copy failed). -/
+theorem one_file_program_fsync_last (c : Cfg) (hf : c.fsync = true) (len : Nat) (ans : CloneAns) (nd : Nat) (ok : Bool) :
+    (fileProgram c len ans nd ok).1.getLast? = some (.fin .fsync) ∧
+    ∀ pre post st, (fileProgram c len ans nd ok).1 = pre ++ .fin st :: post → FCall.data ∉ post := by
+  obtain ⟨p, nd', heq, hp⟩ := fileProgram_shape c len ans nd ok
+  constructor
+  · obtain ⟨l, hl⟩ := finaliseSteps_fsync_last c hf
+    rw [heq, hl]; simp
+  · intro pre post st hsplit hm
+    rw [heq] at hsplit
+    have hF : ∀ x ∈ (finaliseSteps c).map FCall.fin, isData x = false := by
+      intro x hx
+      have := any_isData_fins (finaliseSteps c)
+      rw [List.any_eq_false] at this
+      simpa using this x hx
+    have := no_data_after_fin _ _ hp hF pre post st hsplit _ hm
+    simp [isData] at this
+
+/-! ## not vacuous -/
+
+/-- one file of two blocks, queue capacity 1, one worker, fsync requested: a complete schedule and its log -/
+example :
+    (run (init [2] 1 1 true) [.openNext, .push, .take, .stepJob 0, .stepJob 0, .stepJob 0,
+        .push, .dropOwn, .take, .stepJob 0, .stepJob 0, .stepJob 0]).map (fun s => (s.log, final s))
+      = some ([.opened 0, .write 0 0, .copied 0 0, .write 0 1, .copied 0 1, .finalise 0, .fsync 0, .closed 0], true) := by
+  decide
+
+/-- the monitor rejects a write after the fsync, and a write after the finalisation -/
+example : writesBeforeFinalise [.opened 0, .write 0 0, .finalise 0, .fsync 0, .write 0 1, .closed 0] = false := by decide
+example : writesBeforeFinalise [.opened 0, .finalise 0, .write 0 0, .fsync 0, .closed 0] = false := by decide
+
+/-- parfile: two files on two workers, interleaved -/
+example :
+    (Parfile.run (Parfile.init [2, 1] 2 true) [.take 0, .take 1, .write 0, .write 1, .finish 1, .write 0, .finish 0]).map
+        (fun s => (s.log, Parfile.final s))
+      = some ([.opened 0, .opened 1, .write 0 0, .write 1 0, .finalise 1, .fsync 1, .closed 1, .write 0 1,
+               .finalise 0, .fsync 0, .closed 0], true) := by
+  decide
+
+end Xcp.C18
